@@ -66,6 +66,7 @@ def run(ctx):
         case = {"kind": "amp-read", "label": label, "text": text, "reader": reader.__name__}
         try:
             wire = A.conv_amp_tree(A.raw_amp_parse(text))
+            read_tie(text, "documents")
         except Exception as e:
             res.violation(f"a text in the options grammar is rejected by the grammar: {type(e).__name__}", case, clause="grammar")
             res.case()
@@ -166,6 +167,71 @@ def run(ctx):
 
         batch.add(["amp_read", "gen", A.lookup_table(doc), [[], [], False], A.amp_doc_wire(doc)],
                   lambda ans, f=on, S=Snap: f(ans, cls=S))
+
+    # ---- the text reader: Lark on the repository's grammar against the Lean reader (DL/Model/AmpRead.lean)
+    from lark.exceptions import LarkError
+
+    from . import ampreadgen as G
+
+    def dec_decay(x):
+        return ["D", x[1], None if x[2] == "N" else x[2][0], None if x[3] == "N" else x[3][0], [dec_decay(y) for y in x[4]]]
+
+    def dec_stmt(x):
+        return [x[0], dec_decay(x[1])] + x[2:] if x[0] == "line" else x
+
+    def int_ok(doc):
+        try:
+            for st in doc:
+                if st[0] == "variable":
+                    int(st[2])
+                elif st[0] == "line":
+                    int(st[2]), int(st[5])
+                elif st[0] in ("fcs", "nevents"):
+                    int(st[1])
+            return True
+        except ValueError:
+            return False
+
+    def read_tie(text, stream, intended=None):
+        case = {"kind": "amp-text", "stream": stream, "text": text}
+        try:
+            lark_doc = A.conv_amp_tree(A.raw_amp_parse(text))
+        except LarkError:
+            lark_doc = None
+        res.case()
+        res.count("reader_" + stream)
+        if lark_doc is not None:
+            res.count("reader_" + stream + "_accepted")
+        if intended is not None and lark_doc != intended:
+            res.violation("a well-formed option text is not read as the statements written", case, impl=lark_doc, model=intended, clause="reading of the text")
+
+        def on(ans, case=case, lark_doc=lark_doc):
+            if ans is None:
+                return
+            if ans[0] != "ok":
+                got, flags = None, None
+            else:
+                got, flags = [dec_stmt(x) for x in ans[1][0]], ans[1][1] == "T"
+            if got != lark_doc:
+                res.violation("the model reader and the grammar disagree on a text", case, impl=lark_doc, model=got, clause="model tie: reader")
+            elif got is not None and flags != int_ok(lark_doc):
+                res.violation("the model reader and int() disagree on which flags are integers", case, impl=int_ok(lark_doc), model=flags, clause="model tie: reader")
+
+        batch.add(["amp_text", text], on)
+
+    n_well = 400 if tier == "quick" else 4000
+    n_mal = 600 if tier == "quick" else 6000
+    wells = []
+    for t in dict.fromkeys(G.FIXED):
+        read_tie(t, "fixed")
+    for _ in range(n_well):
+        t, intended = G.gen_well(rng)
+        wells.append(t)
+        read_tie(t, "well", intended)
+    for _ in range(n_mal):
+        t = G.gen_mal(rng, wells)
+        if "\x00" not in t:
+            read_tie(t, "malformed")
 
     for fname, c in load_corpus("C17"):
         one(c["doc"], "corpus:" + fname)
